@@ -426,7 +426,7 @@ Section V2.
 
   (* ResolveStateConflictsV2 (deprecated) *)
   Definition resolve_v2_old (conflicted unconflicted auth_events : list event) : rstate :=
-    match filter is_create auth_events with
+    match filter is_create (auth_events ++ unconflicted ++ conflicted) with
     | [] => mkR [] []
     | _ =>
         let authmap := dedup_events auth_events in
